@@ -99,12 +99,10 @@ def forged_signature(obj, auto=True, args=(), kwargs={}):
                     _signatures.signature(obj))
             return _signatures.UpgradedSignature._upgrade_with_warning(ret)
     if auto:
-        try:
-            subject._sigtools__autoforwards_hint
-        except AttributeError:
-            pass
-        else:
-            h = subject._sigtools__autoforwards_hint(subject)
+        # None: eg. objects whose __getattr__ answers None to every name
+        hint = getattr(subject, '_sigtools__autoforwards_hint', None)
+        if hint is not None:
+            h = hint(subject)
             if h is not None:
                 try:
                     ret = _autoforwards.autoforwards_ast(
